@@ -61,11 +61,11 @@ def run_tests(pid, tier, only=None):
                 with open(target, 'a') as f:
                     f.write('\n#[cfg(rozukke_lace_verif)]\n#[path = "%s"]\npub(crate) mod verif_native_%s;\n' % (
                         os.path.join(NDIR, fname), fname[:-3]))
-        env = dict(os.environ, CARGO_NET_OFFLINE="true", RUSTFLAGS="--cfg rozukke_lace_verif", VERIF_NATIVE_OUT=os.path.join(d, "verif_native.out"), VERIF_NATIVE_TIER=tier,
+        env = dict(os.environ, CARGO_NET_OFFLINE="true", RUSTFLAGS="--cfg rozukke_lace_verif -C overflow-checks=on", VERIF_NATIVE_OUT=os.path.join(d, "verif_native.out"), VERIF_NATIVE_TIER=tier,
                    CARGO_TARGET_DIR=os.path.join(SCRATCH_ROOT, 'lace-native-target'))
         if any(t.get('needs_bin') for t in regs):
             # process-level tests drive the real binary built from the same scratch copy (without the test cfg)
-            env_b = dict(os.environ, CARGO_NET_OFFLINE='true', CARGO_TARGET_DIR=os.path.join(SCRATCH_ROOT, 'lace-native-target-bin'))
+            env_b = dict(os.environ, CARGO_NET_OFFLINE='true', RUSTFLAGS='-C overflow-checks=on', CARGO_TARGET_DIR=os.path.join(SCRATCH_ROOT, 'lace-native-target-bin'))
             b = subprocess.run(['cargo', 'build', '--offline', '--release', '--bin', 'lace'], cwd=d, env=env_b, capture_output=True, text=True)
             binp = os.path.join(SCRATCH_ROOT, 'lace-native-target-bin', 'release', 'lace')
             if b.returncode == 0 and os.path.exists(binp):
@@ -86,7 +86,7 @@ def run_tests(pid, tier, only=None):
             if any(o.get('test') == t['name'] for o in out):
                 continue
             base = {'test': t['name'], 'target': t['target'], 'bound': t['bound'], 'bounded': True, 'engine': 'native-enumeration',
-                    'cmd': 'RUSTFLAGS="--cfg rozukke_lace_verif" ' + ' '.join(cmd)}
+                    'cmd': 'RUSTFLAGS="--cfg rozukke_lace_verif -C overflow-checks=on" ' + ' '.join(cmd)}
             m = re.search(r'VERIF-NATIVE name=%s evaluated=(\d+) distinct=(\d+)' % re.escape(t['name']), text)
             cex = re.findall(r'VERIF-COUNTEREXAMPLE name=%s (.*)' % re.escape(t['name']), text)
             verdict = re.search(r'test [\w:]*%s \.\.\. (ok|FAILED)' % re.escape(t['name']), text)
